@@ -94,7 +94,8 @@ func main() {
 	timeout := flag.Int("timeout", 5, "per-obligation solver timeout (s)")
 	dump := flag.String("dump", "", "directory to dump SMT scripts into")
 	tags := flag.String("tags", "verif", "build tags")
-	jobs := flag.Int("j", 12, "parallel functions")
+	jobs := flag.Int("j", 20, "parallel functions (small functions wait for their batch while holding a slot)")
+	batch := flag.Bool("batch", false, "first pass of small functions in shared solver processes (measured slower than one process per function; off by default)")
 	noGroup := flag.Bool("nogroup", false, "check every postcondition clause on its own in the first pass")
 	noSlice := flag.Bool("noslice", false, "do not slice the VC per obligation block (send every assumption with every obligation)")
 	quant := flag.Bool("slicecontents", false, "model slice contents across append (quantified)")
@@ -118,6 +119,7 @@ func main() {
 	eng.dumpDir = *dump
 	eng.noSlice = *noSlice
 	eng.noGroup = *noGroup
+	eng.noBatch = !*batch
 	if *dump != "" {
 		os.MkdirAll(*dump, 0755)
 	}
@@ -281,7 +283,7 @@ func verifyOne(eng *Engine, key, prop, tmpdir string, quant bool) (fr *FuncRepor
 	vc.run()
 	fr.TranslateS = time.Since(t0).Seconds()
 	t1 := time.Now()
-	vc.solve(tmpdir)
+	eng.solveBatched(vc, tmpdir)
 	fr.SolveS = time.Since(t1).Seconds()
 	fr.Outside = vc.outside
 	fr.Uncontracted = sortedKeysB(vc.uncontracted)
